@@ -98,6 +98,9 @@ CASES = [
     ("table: a table without fields that should expand is laid out as empty, one with fields never", "src/formatters/table.rs", "        None => match should_expand(ctx, table_constructor) {\n            true => TableType::MultiLine,\n            false => TableType::Empty,\n        },", "        None => TableType::Empty,", "table", "default", "ok"),
     ("assignment: values that fit their line are dropped from a multi-line list", "src/formatters/assignment.rs", "                    // Add the pair as it is\n                    output_expr.push(formatted);", "                    // Add the pair as it is", "assign", "default", "C02.assignment_rehang_loop"),
     ("assignment: the hanging candidate is built from the first value only but used for the whole list", "src/formatters/assignment.rs", "    if expressions.len() > 1 {\n", "    if expressions.len() > 2 {\n", "assign", "default", "attempt_assignment_tactics"),
+    ("return: the second value of a one-per-line list is dropped", "src/formatters/block.rs", "                    output_returns.push(formatted);", "                    if idx != 1 { output_returns.push(formatted); }", "assign", "default", "C02.return_rehang_loop"),
+    ("return: every value is hung again from the first one", "src/formatters/block.rs", "let expression = hang_expression(ctx, original, shape, Some(1));", "let expression = hang_expression(ctx, returns.iter().next().unwrap(), shape, Some(1));", "assign", "default", "format_return"),
+    ("harmless: the comments behind `return` are looked for on every value (only the first can have them moved there)", "src/formatters/block.rs", "if comment_between_token_and_returns && idx == 0 {", "if comment_between_token_and_returns {", "assign", "default", "ok"),
     ("harmless: the one-line candidate is preferred whenever it fits", "src/formatters/assignment.rs", "            if expression.has_inline_comments()\n                || hanging_shape.used_width() < formatting_shape.used_width()", "            if expression.has_inline_comments()\n                || formatting_shape.used_width() >= hanging_shape.used_width()", "assign", "default", "ok"),
     # a predicate moved into a new helper next to the function: the helper is inlined (gen.InlineHelper) and verified as part of the caller
     ("helper: the sugar decision moved into a helper that forgets the Input exception", FU, [FA_DOC, FA_STR, FA_TAB], [HELPER_BAD + FA_DOC, FA_STR_H, FA_TAB_H], "args", "default", "C11.input_keeps_form"),
